@@ -174,6 +174,7 @@ Proof.
     destruct (Nat.ltb (length bytes) (N.to_nat (address - lo))); [intros H; inversion H; reflexivity|].
     cbv zeta.
     destruct (Nat.ltb _ _); [intros H; inversion H; reflexivity|].
+    destruct (local_jump _ _ _ _); [discriminate|].
     destruct (eparse_sequence _ _) as [insns|]; [|discriminate].
     destruct (rule_for_sequence _) as [[ru|e|s|]|].
     + intros H; inversion H; reflexivity.
